@@ -120,9 +120,9 @@ def build(fam, archset="x86", extra_flags=(), main="main.cpp", with_scalar=True,
     os.makedirs(out, exist_ok=True)
     inc = ["-I" + os.path.join(REPO, "include"), "-I" + HARNESS]
     jobs = []
-    for name, cxx, _, aflags in archs:
+    for ai, (name, cxx, _, aflags) in enumerate(archs):
         o = os.path.join(out, slug(name) + ".o")
-        jobs.append((o, [compiler] + flags + aflags + inc + ['-DVD_FAM="fam_%s.inc"' % fam, "-DVD_ARCH=" + cxx,
+        jobs.append((o, [compiler] + flags + aflags + inc + ["-DVD_ARCH_ID=%d" % (ai + (100 if archset == "emu" else 0)),'-DVD_FAM="fam_%s.inc"' % fam, "-DVD_ARCH=" + cxx,
                                                    '-DVD_ARCH_NAME="%s"' % name, "-c",
                                                    os.path.join(HARNESS, "arch_tu.cpp"), "-o", o]))
     if with_scalar and archset == "x86":
@@ -215,7 +215,8 @@ def tlc_model(module, cfg=None, workers=NCPU, xmx="8g", timeout=3000, extra=(), 
         r = sh(tlc_cmd(module, cfg, md, workers, xmx, extra), cwd=SPEC, timeout=timeout, env=e)
         out, rc = r.stdout, r.returncode
     except subprocess.TimeoutExpired as ex:
-        out, rc = (ex.stdout or "") + "\nTIMEOUT", 124
+        so = ex.stdout or ""
+        out, rc = (so.decode("utf-8", "replace") if isinstance(so, bytes) else so) + "\nTIMEOUT", 124
     shutil.rmtree(md, ignore_errors=True)
     m = _STATES_RE.findall(out)
     gen, dist = (int(m[-1][0]), int(m[-1][1])) if m else (0, 0)
@@ -251,7 +252,7 @@ def split_file(path, n, outdir, prefix):
     return outs, len(lines)
 
 
-def tlc_validate(module, traces, cfg=None, timeout=3000, xmx="3g", env_extra=None):
+def tlc_validate(module, traces, cfg=None, timeout=1500, xmx="3g", env_extra=None):
     """Validate trace files (ndjson) against a trace specification, one TLC process per file, in parallel.
     Returns (rejects, stats, errors). A TLC process that fails for another reason than a rejection is an
     infrastructure error."""
@@ -270,7 +271,8 @@ def tlc_validate(module, traces, cfg=None, timeout=3000, xmx="3g", env_extra=Non
             r = sh(tlc_cmd(module, cfg, md, 1, xmx), cwd=SPEC, timeout=timeout, env=e)
             out, rc = r.stdout, r.returncode
         except subprocess.TimeoutExpired as ex:
-            out, rc = (ex.stdout or "") + "\nTIMEOUT", 124
+            so = ex.stdout or ""
+            out, rc = (so.decode("utf-8", "replace") if isinstance(so, bytes) else so) + "\nTIMEOUT", 124
         shutil.rmtree(md, ignore_errors=True)
         return tr, rc, out
 
